@@ -96,55 +96,40 @@ theorem kindEq_isAlwaysClosed {s s' : Schedule} (h : KindEq s s') :
   rw [Bool.eq_iff_iff, isAlwaysClosed_iff_state s h.wf, isAlwaysClosed_iff_state s' h.wf']
   simp only [h.state]
 
-theorem optRel_additionOr {p p' c c' : Option Schedule} (hp : OptRel p p') (hc : OptRel c c') :
+theorem optRel_additionOr : ∀ {p p' c c' : Option Schedule}, OptRel p p' → OptRel c c' →
     OptRel (match p, c with
         | some p, some c => some (Schedule.addition p c)
         | p, c => p <|> c)
       (match p', c' with
         | some p, some c => some (Schedule.addition p c)
         | p, c => p <|> c) := by
-  cases p <;> cases p' <;> cases c <;> cases c' <;> simp only [OptRel] at hp hc ⊢
-  · exact hc
-  · exact hp
-  · exact kindEq_addition hp hc
+  intro p p' c c' hp hc
+  cases p <;> cases p' <;> cases c <;> cases c' <;>
+    first
+    | exact hp.elim
+    | exact hc.elim
+    | exact kindEq_addition hp hc
+    | exact hc
+    | exact hp
 
 /-! ### (4) the evaluator -/
 
 theorem ruleScheduleAt_rel (f : List String → List String) (ctx : Ctx) (r : Rule) (d : Day) :
     MRel OptRel (ruleScheduleAt ctx r d) (ruleScheduleAt ctx (reRule f r) d) := by
   unfold ruleScheduleAt
-  show MRel OptRel _ (_ >>= _)
-  refine MRel.bind (R := OptRel) ?_ ?_
-  · show MRel OptRel (r.day.filter ctx d >>= _) (r.day.filter ctx d >>= _)
-    refine MRel.bind (MRel.refl_eq _) ?_
-    rintro b _ rfl
-    cases b
-    · exact MRel.pure (R := OptRel) trivial
-    · show MRel OptRel (intervalsAt ctx r.time d >>= _) (intervalsAt ctx r.time d >>= _)
-      refine MRel.bind (MRel.refl_eq _) ?_
-      rintro rs _ rfl
-      exact MRel.pure (R := OptRel) (kindEq_fromRanges rs r.kind _ _)
-  · intro today today' ht
-    refine MRel.bind (R := OptRel) ?_ ?_
-    · show MRel OptRel (match pred? d with | none => _ | some p => _) (match pred? d with | none => _ | some p => _)
-      cases pred? d with
-      | none => exact MRel.pure (R := OptRel) trivial
-      | some p =>
-        show MRel OptRel (r.day.filter ctx p >>= _) (r.day.filter ctx p >>= _)
-        refine MRel.bind (MRel.refl_eq _) ?_
-        rintro b _ rfl
-        cases b
-        · exact MRel.pure (R := OptRel) trivial
-        · show MRel OptRel (intervalsAtNextDay ctx r.time p >>= _) (intervalsAtNextDay ctx r.time p >>= _)
-          refine MRel.bind (MRel.refl_eq _) ?_
-          rintro rs _ rfl
-          exact MRel.pure (R := OptRel) (kindEq_fromRanges rs r.kind _ _)
-    · intro y y' hy
-      cases today <;> cases today' <;> cases y <;> cases y' <;> simp only [OptRel] at ht hy
-      · exact MRel.pure (R := OptRel) trivial
-      · exact MRel.pure (R := OptRel) hy
-      · exact MRel.pure (R := OptRel) ht
-      · exact MRel.pure (R := OptRel) (kindEq_addition ht hy)
+  simp only [reRule]
+  generalize r.day.filter ctx d = A
+  generalize intervalsAt ctx r.time d = B
+  cases pred? d with
+  | none =>
+    rcases A with _ | _ | _ <;> rcases B with _ | _ <;>
+      simp [MRel, bind, Except.bind, pure, Except.pure, OptRel, kindEq_fromRanges]
+  | some p =>
+    dsimp only
+    generalize r.day.filter ctx p = A'
+    generalize intervalsAtNextDay ctx r.time p = B'
+    rcases A with _ | _ | _ <;> rcases B with _ | _ <;> rcases A' with _ | _ | _ <;> rcases B' with _ | _ <;>
+      simp [MRel, bind, Except.bind, pure, Except.pure, OptRel, kindEq_fromRanges, kindEq_addition]
 
 theorem scheduleStep_rel (f : List String → List String) (ctx : Ctx) (d : Day)
     (st st' : Bool × Option Schedule) (h : StRel st st') (r : Rule) :
@@ -236,5 +221,144 @@ theorem scheduleAt_states_mapComments (f : List String → List String) (ctx : C
   · exact id
   · exact id
   · intro h; exact ⟨h.wf, h.wf', h.state⟩
+
+/-! ### the corollary for C06: comments joined by the printer -/
+
+/-- what the comment list of a rule becomes after printing and parsing -/
+def joinF (c : List String) : List String :=
+  if c.length ≥ 2 then [String.ofList (Print.joinComments c)] else c
+
+/-- `[a, b]` ↦ `["a, b"]` (the same definition as `OH.Proofs.Syn.joinRuleComments` and
+`OH.Driver.Syn.joinRuleComments`) -/
+def joinRuleComments (r : Rule) : Rule :=
+  if r.comments.length ≥ 2 then { r with comments := [String.ofList (Print.joinComments r.comments)] } else r
+
+theorem joinRuleComments_eq (r : Rule) : joinRuleComments r = reRule joinF r := by
+  unfold joinRuleComments reRule joinF
+  split <;> rfl
+
+theorem map_joinRuleComments (e : Expr) : e.map joinRuleComments = mapComments joinF e := by
+  rw [mapComments_eq]
+  exact List.map_congr_left (fun r _ => joinRuleComments_eq r)
+
+/-- joining the comments of every rule changes no state and no error -/
+theorem scheduleAt_kinds_joinRuleComments (ctx : Ctx) (e : Expr) (d : Day) :
+    match scheduleAt ctx e d, scheduleAt ctx (e.map joinRuleComments) d with
+    | .ok s, .ok s' => ∀ m, dayState s m = dayState s' m
+    | .error p, .error p' => p = p'
+    | _, _ => False := by
+  rw [map_joinRuleComments]; exact scheduleAt_kinds_mapComments joinF ctx e d
+
+theorem scheduleAt_states_joinRuleComments (ctx : Ctx) (e : Expr) (d : Day) :
+    match scheduleAt ctx e d, scheduleAt ctx (e.map joinRuleComments) d with
+    | .ok s, .ok s' => WF s ∧ WF s' ∧ ∀ m, stateAt s m = stateAt s' m
+    | .error p, .error p' => p = p'
+    | _, _ => False := by
+  rw [map_joinRuleComments]; exact scheduleAt_states_mapComments joinF ctx e d
+
+/-! ### the operator of the first rule is irrelevant -/
+
+/-- replace the operator of the first rule -/
+def setFirstOp (op : RuleOp) : Expr → Expr
+  | [] => []
+  | r :: rs => { r with op := op } :: rs
+
+/-- on the initial loop state `(false, None)` every operator does the same thing: the state becomes
+(does the rule match today, the schedule of the rule) -/
+theorem scheduleStep_init (ctx : Ctx) (d : Day) (r : Rule) :
+    scheduleStep ctx d (false, none) r
+      = (do let cm ← r.day.filter ctx d; let ce ← ruleScheduleAt ctx r d; pure (cm, ce)) := by
+  unfold scheduleStep
+  cases r.day.filter ctx d with
+  | error _ => rfl
+  | ok cm =>
+    cases ruleScheduleAt ctx r d with
+    | error _ => rfl
+    | ok ce =>
+      cases r.op <;> cases r.kind <;> cases cm <;> cases ce <;> rfl
+
+theorem scheduleStep_init_op (ctx : Ctx) (d : Day) (r : Rule) (op : RuleOp) :
+    scheduleStep ctx d (false, none) { r with op := op } = scheduleStep ctx d (false, none) r := by
+  rw [scheduleStep_init, scheduleStep_init]
+  rfl
+
+/-- THE OPERATOR OF THE FIRST RULE IS IRRELEVANT for `schedule_at` (schedules, comments and errors
+alike): the loop starts from `(false, None)`, where `Normal`, `Additional` and `Fallback` coincide. -/
+theorem scheduleAt_first_op_irrelevant (ctx : Ctx) (e : Expr) (d : Day) (op : RuleOp) :
+    scheduleAt ctx (setFirstOp op e) d = scheduleAt ctx e d := by
+  cases e with
+  | nil => rfl
+  | cons r rs =>
+    unfold scheduleAt
+    simp only [setFirstOp, foldM', scheduleStep_init_op]
+
+/-! ### what `parse (print e)` is predicted to be -/
+
+/-- the rule printed for an empty expression: `closed` -/
+def closedRule : Rule := ⟨⟨[], [], [], []⟩, [TimeSpan.fullDay], .closed, .normal, []⟩
+
+/-- the expression the round-trip theorem predicts for `parse (print e)` (the same definition as
+`OH.Proofs.Syn.joinComments` and `OH.Driver.Syn.joinComments`) -/
+def joinComments (e : Expr) : Expr :=
+  match e.map joinRuleComments with
+  | [] => [closedRule]
+  | r :: rest => { r with op := .normal } :: rest
+
+theorem joinComments_cons (r : Rule) (rs : List Rule) :
+    joinComments (r :: rs) = setFirstOp .normal ((r :: rs).map joinRuleComments) := rfl
+
+theorem ruleScheduleAt_closedRule (ctx : Ctx) (d : Day) :
+    ruleScheduleAt ctx closedRule d = .ok (some [⟨0, 1440, .closed, []⟩]) := by
+  unfold ruleScheduleAt
+  generalize pred? d = q
+  cases q <;> rfl
+
+/-- the empty expression and `closed` are closed all day (the first has no range at all, the second
+one closed range 00:00-24:00) -/
+theorem scheduleAt_closedRule (ctx : Ctx) (d : Day) :
+    scheduleAt ctx [closedRule] d = .ok [] ∨
+      scheduleAt ctx [closedRule] d = .ok [⟨0, 1440, .closed, []⟩] := by
+  unfold scheduleAt
+  split
+  · exact Or.inl rfl
+  · right
+    simp only [foldM', scheduleStep_init, ruleScheduleAt_closedRule]
+    rfl
+
+/-- C06, evaluator side: the expression predicted for `parse (print e)` — comments of each rule
+joined, first operator forced to `Normal`, `closed` for the empty expression — shows the same state
+as `e` at every minute of every day, and fails exactly when `e` fails, with the same message. -/
+theorem scheduleAt_kinds_joinComments (ctx : Ctx) (e : Expr) (d : Day) :
+    match scheduleAt ctx e d, scheduleAt ctx (joinComments e) d with
+    | .ok s, .ok s' => ∀ m, dayState s m = dayState s' m
+    | .error p, .error p' => p = p'
+    | _, _ => False := by
+  cases e with
+  | nil =>
+    have h0 : scheduleAt ctx [] d = .ok [] := by
+      unfold scheduleAt; split <;> rfl
+    have h1 : joinComments [] = [closedRule] := rfl
+    rw [h0, h1]
+    rcases scheduleAt_closedRule ctx d with h | h <;> rw [h]
+    · intro m; rfl
+    · intro m
+      simp only [dayState, stateAt]
+      split <;> rfl
+  | cons r rs =>
+    rw [joinComments_cons, scheduleAt_first_op_irrelevant]
+    exact scheduleAt_kinds_joinRuleComments ctx (r :: rs) d
+
+/-- for a non-empty expression even the covered minutes are the same (for the empty expression
+`closed` covers the whole day with one closed range, the empty expression covers nothing) -/
+theorem scheduleAt_states_joinComments (ctx : Ctx) (e : Expr) (d : Day) (hne : e ≠ []) :
+    match scheduleAt ctx e d, scheduleAt ctx (joinComments e) d with
+    | .ok s, .ok s' => WF s ∧ WF s' ∧ ∀ m, stateAt s m = stateAt s' m
+    | .error p, .error p' => p = p'
+    | _, _ => False := by
+  cases e with
+  | nil => exact absurd rfl hne
+  | cons r rs =>
+    rw [joinComments_cons, scheduleAt_first_op_irrelevant]
+    exact scheduleAt_states_joinRuleComments ctx (r :: rs) d
 
 end OH.Proofs.EvalComments
